@@ -14,10 +14,10 @@ type VSched struct {
 }
 
 type AllowedEntry struct {
-	Who     int    `json:"who"`               // actor index; -1 = use RawAddr
-	RawAddr string `json:"raw,omitempty"`     // used when Who == -1 (malformed address)
-	Max     string `json:"max"`               // integer string (may be 0 / negative for invalid cases)
-	Upper   bool   `json:"uc,omitempty"`      // the address is spelt in upper case (legal bech32, same account)
+	Who     int    `json:"who"`           // actor index; -1 = use RawAddr
+	RawAddr string `json:"raw,omitempty"` // used when Who == -1 (malformed address)
+	Max     string `json:"max"`           // integer string (may be 0 / negative for invalid cases)
+	Upper   bool   `json:"uc,omitempty"`  // the address is spelt in upper case (legal bech32, same account)
 }
 
 type ParamsSpec struct {
@@ -33,15 +33,15 @@ const (
 	KCancel      = "cancel"
 	KPlaceBid    = "place_bid"
 	KModifyBid   = "modify_bid"
-	KAddAllowed  = "msg_add_allowed" // MsgAddAllowedBidder through a signed tx (must always be rejected)
+	KAddAllowed  = "msg_add_allowed"   // MsgAddAllowedBidder through a signed tx (must always be rejected)
 	KUpdParams   = "msg_update_params" // MsgUpdateParams signed by a user (must always be rejected)
-	KSend        = "bank_send"       // plain x/bank MsgSend (third-party deposits, transfers between actors)
+	KSend        = "bank_send"         // plain x/bank MsgSend (third-party deposits, transfers between actors)
 )
 
 type Msg struct {
-	Kind string `json:"k"`
-	Who  int    `json:"who"` // actor named in the message's signer field
-	Upper bool  `json:"uc,omitempty"` // the signer field spells the address in upper case (legal bech32, same account)
+	Kind  string `json:"k"`
+	Who   int    `json:"who"`          // actor named in the message's signer field
+	Upper bool   `json:"uc,omitempty"` // the signer field spells the address in upper case (legal bech32, same account)
 
 	AuctionID uint64 `json:"auc,omitempty"`
 	BidID     uint64 `json:"bid,omitempty"`
@@ -70,11 +70,11 @@ type Msg struct {
 }
 
 type Tx struct {
-	Actor    int   `json:"actor"`            // who signs
-	Msg      Msg   `json:"msg"`
-	SeqDelta int   `json:"seqd,omitempty"`   // signed with expected sequence + SeqDelta (mempool reorder / stale tx)
-	Dup      bool  `json:"dup,omitempty"`    // the same signed bytes are included a second time right after
-	Note     string `json:"note,omitempty"`  // generator's intent (valid / which single reason invalid), informational
+	Actor    int    `json:"actor"` // who signs
+	Msg      Msg    `json:"msg"`
+	SeqDelta int    `json:"seqd,omitempty"` // signed with expected sequence + SeqDelta (mempool reorder / stale tx)
+	Dup      bool   `json:"dup,omitempty"`  // the same signed bytes are included a second time right after
+	Note     string `json:"note,omitempty"` // generator's intent (valid / which single reason invalid), informational
 	// RawMsgJSON: when set, the message put on chain is decoded from this JSON (as emitted by the
 	// node binary with --generate-only) instead of being built from Msg (C20, CLI in the loop).
 	RawMsgJSON string `json:"raw_msg_json,omitempty"`
@@ -98,16 +98,16 @@ type Op struct {
 
 // Fault kinds
 const (
-	FCrashPre   = "crash_pre"   // crash after FinalizeBlock, before Commit: restart from disk, re-execute the block
-	FCrashPost  = "crash_post"  // crash after Commit: restart from disk
-	FLostCommit = "lost_commit" // disk rolled back to before this block's Commit after it "completed"; block replayed
-	FOEAbort    = "oe_abort"    // ProcessProposal of a different block first (optimistic execution aborted)
-	FOEHit      = "oe_hit"      // ProcessProposal of the same block first (optimistic execution result reused)
-	FBankFail   = "bank_fail"   // K-th bank/distr call of tx Tx fails
-	FHookFail   = "hook_fail"   // listener Listener fails on its N-th call of Method
-	FJoinExport = "join_export" // a new replica is started from this node's exported genesis after this block
-	FQuery      = "query_noise" // gRPC queries between FinalizeBlock and Commit must see pre-block state
-	FDiscarded  = "discarded_ops"  // keeper ops on a discarded branch + Simulate of txs: executed-but-rolled-back work must leave no trace
+	FCrashPre   = "crash_pre"     // crash after FinalizeBlock, before Commit: restart from disk, re-execute the block
+	FCrashPost  = "crash_post"    // crash after Commit: restart from disk
+	FLostCommit = "lost_commit"   // disk rolled back to before this block's Commit after it "completed"; block replayed
+	FOEAbort    = "oe_abort"      // ProcessProposal of a different block first (optimistic execution aborted)
+	FOEHit      = "oe_hit"        // ProcessProposal of the same block first (optimistic execution result reused)
+	FBankFail   = "bank_fail"     // K-th bank/distr call of tx Tx fails
+	FHookFail   = "hook_fail"     // listener Listener fails on its N-th call of Method
+	FJoinExport = "join_export"   // a new replica is started from this node's exported genesis after this block
+	FQuery      = "query_noise"   // gRPC queries between FinalizeBlock and Commit must see pre-block state
+	FDiscarded  = "discarded_ops" // keeper ops on a discarded branch + Simulate of txs: executed-but-rolled-back work must leave no trace
 	FCheckTx    = "checktx_noise" // CheckTx traffic before the block must not influence FinalizeBlock
 )
 
@@ -127,20 +127,20 @@ type Block struct {
 }
 
 type Config struct {
-	Actors    int               `json:"actors"`
-	Balances  map[string]string `json:"balances"` // denom -> amount each actor starts with
+	Actors    int                       `json:"actors"`
+	Balances  map[string]string         `json:"balances"`       // denom -> amount each actor starts with
 	Poor      map[int]map[string]string `json:"poor,omitempty"` // per-actor override balances
-	Params    ParamsSpec        `json:"params"`
-	Replicas  int               `json:"replicas"`  // shadow replicas fed the same log (C14)
-	Listeners int               `json:"listeners"` // number of hook listeners registered (C17); 0 = none
-	Profile   string            `json:"profile"`
+	Params    ParamsSpec                `json:"params"`
+	Replicas  int                       `json:"replicas"`  // shadow replicas fed the same log (C14)
+	Listeners int                       `json:"listeners"` // number of hook listeners registered (C17); 0 = none
+	Profile   string                    `json:"profile"`
 }
 
 type Schedule struct {
-	Seed    int64   `json:"seed"`
-	Cfg     Config  `json:"cfg"`
-	GenesisNs int64 `json:"genesis_ns"`
-	Blocks  []Block `json:"blocks"`
+	Seed      int64   `json:"seed"`
+	Cfg       Config  `json:"cfg"`
+	GenesisNs int64   `json:"genesis_ns"`
+	Blocks    []Block `json:"blocks"`
 }
 
 // Violation reported by an oracle.
